@@ -47,7 +47,7 @@ def run(pid, tier, seed):
         "'correct immediately after any mutation': the functions read only the two link attributes (no cached state); "
         "their value is a function of the current view"],
         "queries.py", {"property": "C04", "nodes": 5}, {"property": "C04", "nodes": 7},
-        "all ordered tree shapes up to N nodes, every node, all pairs/triples for commonancestors", lemmas=LEMMAS)
+        "all ordered tree shapes up to N nodes, every node, all pairs/triples for commonancestors", lemmas=LEMMAS, quick_search=True)
 
 
 def collect_all(res):
